@@ -11,6 +11,7 @@ Inductive op :=
 | OForceTask (chain : nat) (name : str) (delete : bool)
 | OForceChain (chain : nat) (names : list str) (recompute delete : bool)
 | OHasData (chain : nat) (name : str)
+| OFlags (chain : nat)                          (* is_forced and has_data of every task of a chain *)
 | ORestart
 | OSetFail (slugs : list str).
 
@@ -25,7 +26,7 @@ Definition init : hstate := {| h_world := empty_world; h_chains := [] |}.
 Section History.
   Variable H : str -> str.
   Variable wd : World.world.
-  Variable run : nat -> list (str * str) -> list (str * value) -> nat -> value.
+  Variable run : nat -> list (str * str) -> list (str * value) -> value.
 
   Definition classes_of_world : list tclass := let '(_, classes, _, _, _, _) := wd in classes.
 
@@ -76,14 +77,14 @@ Section History.
         match build H wd base (w_objs w) [] with
         | inl (rc, objs, _) =>
             ({| h_world := with_objs objs w; h_chains := h_chains h ++ [rc_tasks rc] |}, ok (render_chain rc objs))
-        | inr _ => (h, err)
+        | inr _ => ({| h_world := w; h_chains := h_chains h ++ [[]] |}, err)   (* the slot of a failed construction *)
         end
     | OBuildMulti bases =>
         match build_multi H wd bases (w_objs w) [] with
         | inl (rcs, objs, _) =>
             ({| h_world := with_objs objs w; h_chains := h_chains h ++ map rc_tasks rcs |},
              ok (VList (map (fun rc => render_chain rc objs) rcs)))
-        | inr _ => (h, err)
+        | inr _ => ({| h_world := w; h_chains := h_chains h ++ map (fun _ => []) bases |}, err)
         end
     | OValue chain name =>
         match oid_of h chain name with
@@ -131,6 +132,31 @@ Section History.
                 end
             end
         end
+    | OFlags chain =>
+        match nth_error (h_chains h) chain with
+        | None => (h, err)
+        | Some c =>
+            let visit (acc : Eval.world * list value) (t : str * nat) :=
+              let '(wa, out) := acc in
+              match nth_error (w_objs wa) (snd t) with
+              | None => (wa, out)
+              | Some ob =>
+                  match cls_of classes_of_world ob with
+                  | None => (wa, out)
+                  | Some tc =>
+                      let forced := os_forced (state_of wa (snd t)) in
+                      if persisting (c_data tc) then
+                        let st0 := match os_mem (state_of wa (snd t)) with
+                                   | Some _ => w_store wa
+                                   | None => mkdirs (dir_of_slug (c_slug tc)) (w_store wa) end in
+                        (with_store st0 wa,
+                         out ++ [VList [VStr (fst t); VBool forced; VBool (dhas (result_path tc ob) st0)]])
+                      else (wa, out ++ [VList [VStr (fst t); VBool forced; VBool false]])
+                  end
+              end in
+            let '(w', out) := fold_left visit c (w, []) in
+            ({| h_world := w'; h_chains := h_chains h |}, ok (VList out))
+        end
     | ORestart =>
         ({| h_world := {| w_store := w_store w; w_objs := []; w_states := []; w_runlog := w_runlog w;
                           w_fail := w_fail w |}; h_chains := [] |}, ok VNone)
@@ -156,7 +182,7 @@ Section History.
 End History.
 
 (* the provenance term returned by the generated run() methods *)
-Definition provenance_run (classes : list tclass) (i : nat) (ps : list (str * str)) (ins : list (str * value)) (n : nat)
+Definition provenance_run (classes : list tclass) (i : nat) (ps : list (str * str)) (ins : list (str * value))
   : value :=
   VDict [ (lit "i", VList (map (fun iv => VList [VStr (local_part (fst iv)); snd iv]) ins));
           (lit "p", VDict (map (fun p => (fst p, VStr (snd p))) ps));
